@@ -314,6 +314,6 @@ def run_case(case, rec, ctx):
 
 META = {
     "technique": "runtime contracts on RelativisticBreitWignerBuilder.__call__ / convenience builders (judged against the public function API) and on EnergyDependentWidth / BlattWeisskopfSquared evaluations (SciPy Hankel reference), over L, phase-space factors and parameter decades",
-    "level_text": "Every builder call in the workload (4 flag combinations x 5 phase-space factors x L, plus the five convenience builders) is judged by a post-condition that evaluates the returned expression and the documented public-function composition at 24 sampled masses, and checks the parameter defaults against the particle; width normalisation is evaluated for 5 phase-space factors x L 0..6 x 40 parameter sets (resonance above and below threshold); Blatt-Weisskopf unity/threshold power/monotone-bounded/Hankel-reference/polynomial-vs-symbolic-L for L 0..4 (thorough 0..10).",
+    "level_text": "Every builder call in the workload (4 flag combinations x 5 phase-space factors x L, plus the five convenience builders) is judged by a post-condition that evaluates the returned expression and the documented public-function composition at 24 sampled masses, and checks the parameter defaults against the particle; width normalisation is evaluated for 5 phase-space factors x L 0..6 x 40 parameter sets (resonance above and below threshold); Blatt-Weisskopf unity/threshold power/monotone-bounded/Hankel-reference/polynomial-vs-symbolic-L for L 0..4 (thorough 0..10). Builders are constructed by keyword and positionally; every builder case re-assigns the builder's public attributes four times with a call after each; the symbolic-L route of the Blatt-Weisskopf factor is guarded.",
     "level_note": "SciPy spherical Bessel functions trusted; equality is numeric at sampled points.",
 }
